@@ -241,6 +241,25 @@ CHECKS["C09"] = dict(
          "(the property is about unchanged cells).",
     design="4 C09")
 
+CHECKS["C15"] = dict(
+    level="model_checking",
+    technique="TLA+ spec Paths.tla (exact curve state machine on integer control points; bounds on "
+              "measured deviations); TLC-generated section histories with spec-computed control "
+              "polygons replayed on gdstk::Curve; state and quantised measurements validated by TLC",
+    text="[S] exact: after every section the end point, the last control point (absolute, second "
+         "to last control / reflection for smooth continuations), the vertex count and, for "
+         "rectangle / cross, the documented vertices are compared with Paths.tla; TLC also proves "
+         "tangent continuity of smooth continuations on the exact state. [M] measured: the harness "
+         "measures, by dense sampling, that all new vertices are finite, lie on the exact curve in "
+         "forward order (1e-6 of the feature), start and end where requested, and that the polyline "
+         "stays within 1.5 tolerances of the exact curve for arcs and non-doubling-back polynomial "
+         "sections, ellipses, rings, slices, racetracks and fillets; TLC decides over the quantised "
+         "observations.",
+    note="Trusted: TLC, Paths.tla, the harness's distance measuring (sampling + ternary search, "
+         "~120 lines). Hobby interpolation only as 'passes through the points'; command strings "
+         "not yet replayed; fillets held to the tolerance, not to exactness.",
+    design="4 C15")
+
 NOT_YET = {}
 
 
